@@ -179,6 +179,10 @@ func (in *Interp) formatValue(verb byte, a Value) *Term {
 					}
 					return tb.Str(strconv.FormatUint(t.U, 10))
 				}
+				if t.Op == "int2bv" {
+					// a non-negative mathematical integer: canonical decimal rendering
+					return tb.StrOp("str.from_int", SortStr, t.Args[0])
+				}
 				return tb.UF("fmt.int", SortStr, tb.Resize(t, 64, false))
 			}
 		}
@@ -699,6 +703,46 @@ func (in *Interp) strSplit(s, sep *Term, n int) Value {
 	}
 	if !sep.IsConst() || sep.S == "" {
 		panic(in.abort("strings.Split with symbolic/empty separator"))
+	}
+	// syntactic split: a concatenation whose non-constant parts are known (from the path condition) not to
+	// contain the separator splits exactly at the separators inside its constant parts
+	if len(sep.S) == 1 && n < 0 {
+		parts := []*Term{s}
+		if s.Op == "str.++" {
+			parts = s.Args
+		}
+		ok := true
+		for _, p := range parts {
+			if p.IsConst() {
+				continue
+			}
+			if v, known := in.known[tb.StrOp("str.contains", SortBool, p, sep)]; !known || v {
+				ok = false
+				break
+			}
+		}
+		if ok {
+			var out []Value
+			cur := []*Term{}
+			for _, p := range parts {
+				if !p.IsConst() {
+					cur = append(cur, p)
+					continue
+				}
+				segs := strings.Split(p.S, sep.S)
+				for i, seg := range segs {
+					if i > 0 {
+						out = append(out, tb.Concat(cur...))
+						cur = cur[:0:0]
+					}
+					if seg != "" {
+						cur = append(cur, tb.Str(seg))
+					}
+				}
+			}
+			out = append(out, tb.Concat(cur...))
+			return out
+		}
 	}
 	var out []Value
 	rest := s
